@@ -597,6 +597,7 @@ func (d *Driver) Apply(s Step) bool {
 		if !s.Has("exact") {
 			s = Step{"a": s["a"], "u": s["u"], "liq": d.resolveReqs(ctx, s["liq"], false), "sl": d.resolveReqs(ctx, s["sl"], false)}
 		}
+		user = s.S("u")
 		var liq, sl []*leveragelptypes.PositionRequest
 		for _, x := range posReqs(d, s["liq"]) {
 			pr := x.([]any)
